@@ -87,7 +87,21 @@ SHAPES = [
     S(67, 'v', 'REQ_V',    ''),
     S(68, 'f', 'FORBID_V', ''),
     S(69, 'f', 'REQ_V',    'Q1 RT R'),
+    # ---- the scoped forms (the expectation is a local variable of a block; its lifetime ends at scope exit)
+    S(70, 'f', 'SREQ',     'RT R'),
+    S(71, 'f', 'SREQ',     'W1 Q1 S1 RT R'),
+    S(72, 'f', 'SALLOW',   'R'),
+    S(73, 'f', 'SFORBID',  ''),
+    S(74, 'v', 'SREQ',     'RT'),
+    S(75, 'v', 'SALLOW',   'S1'),
+    S(76, 'v', 'SFORBID',  'W1'),
+    S(77, 'f', 'SREQ_V',   'W1 RT R'),
+    S(78, 'v', 'SALLOW_V', 'S1'),
+    S(79, 'v', 'SFORBID_V', 'W1'),
+    S(80, 'v', 'SREQ_V',   ''),
+    S(81, 'v', 'SFORBID_V', ''),
 ]
+SCOPED_IDS = set(range(70, 82))
 
 BY_ID = {s['id']: s for s in SHAPES}
 
@@ -119,7 +133,7 @@ def derive(sh):
         retk = 3            # throws int
     else:
         retk = 0            # void / nothing
-    fam = sh['macro'].replace('_V', '')
+    fam = sh['macro'].replace('_V', '').lstrip('S') if sh['macro'].startswith('S') else sh['macro'].replace('_V', '')
     lo, hi = {'REQ': (1, 1), 'ALLOW': (0, INF), 'FORBID': (0, 0)}[fam]
     rt = 'RT' in cl
     for c in cl:
